@@ -691,6 +691,10 @@ func (env *specEnv) call(n *ECall) Val {
 		v := env.eval(n.Args[0])
 		a := env.withState(env.old, func() Val { return Val{L: []string{e.heapArr("$alloc", "(Array Int Bool)")}} })
 		return Val{T: tBool, L: []string{"(select " + a.L[0] + " " + v.L[0] + ")"}}
+	case "disjoint":
+		// the two slices share no backing array (nil slices are disjoint from everything)
+		a, b := env.eval(n.Args[0]), env.eval(n.Args[1])
+		return Val{T: tBool, L: []string{sor(snot(seq(a.L[0], b.L[0])), seq(a.L[0], "0"))}}
 	case "sameptr":
 		a, b := env.eval(n.Args[0]), env.eval(n.Args[1])
 		return Val{T: tBool, L: []string{sand(seq(a.L[0], b.L[0]), seq(a.L[1], b.L[1]))}}
